@@ -289,11 +289,11 @@ func (d Driver) Run(c *core.Ctx) error {
 		<-done
 	}
 	// 1. model level: laws of the cascade, of transform composition, of the shape regions and of the event lists
-	c.TLC(tlc.Opts{Module: "SVGDoc", Config: cfg("mc", c.Pick(40, 800), true), Seed: c.Seed, Coverage: c.Thorough(), Timeout: 20 * time.Minute}, true)
+	c.TLC(tlc.Opts{Module: "SVGDoc", Config: cfg("mc", c.Pick(40, 500), true), Seed: c.Seed, Coverage: c.Thorough(), Timeout: 20 * time.Minute}, true)
 	// 2. spec -> code: documents
-	run(tlc.Opts{Module: "SVGDoc", Config: cfg("gen", c.Pick(1000, 24000), false), Seed: c.Seed, Timeout: 40 * time.Minute})
+	run(tlc.Opts{Module: "SVGDoc", Config: cfg("gen", c.Pick(1000, 16000), false), Seed: c.Seed, Timeout: 40 * time.Minute})
 	// 3. round trip
-	run(tlc.Opts{Module: "SVGDoc", Config: cfg("rt", c.Pick(300, 6000), false), Seed: c.Seed + 1, Timeout: 40 * time.Minute})
+	run(tlc.Opts{Module: "SVGDoc", Config: cfg("rt", c.Pick(300, 4000), false), Seed: c.Seed + 1, Timeout: 40 * time.Minute})
 	c.Count(nEval, nNT, nEval)
 	c.SetExtra("round_trip_drawings", nRT)
 	featHits.Range(func(k, v any) bool {
